@@ -82,7 +82,11 @@ def _case(draw):
             slots.append(dict(op=c["op"], default_targets=c["targets"], dims=[info.dim[t] for t in c["targets"]]))
         else:
             t = draw(st.sampled_from([s for s in info.subs if info.kind[s] == kind]))
-            slots.append(dict(op=draw(S.op_for_kind(kind, allow_big=draw(st.booleans()))), default_targets=[t], dims=[info.dim[t]]))
+            opst = S.op_for_kind(kind, allow_big=draw(st.booleans()))
+            if kind == "fock":
+                # user-sized operators carry per-object size information: the interesting case for re-use
+                opst = st.one_of(opst, opst, st.builds(lambda s_: dict(type="fock:Custom", useed=s_), S.seeds))
+            slots.append(dict(op=draw(opst), default_targets=[t], dims=[info.dim[t]]))
     events = []
     for _ in range(draw(st.integers(3, 8))):
         i = draw(st.integers(0, nslots - 1))
@@ -106,6 +110,13 @@ def _case(draw):
                 pairs = sorted(((occ[a_] + occ[b_], a_, b_) for a_ in focks_in_ce for b_ in focks_in_ce if a_ < b_))
                 tot, a_, b_ = pairs[min(applied_before, len(pairs) - 1)]
                 ts = [a_, b_] if draw(st.booleans()) else [b_, a_]
+            elif op["type"] == "fock:Custom" and applied_before == 0 and draw(st.booleans()):
+                # first send the user-sized operator to a mode that is occupied beyond the operator's size (the
+                # library has to refuse), later to the mode it was sized for: the refusal must leave no trace
+                k_ = slots[i]["dims"][0]
+                over = [f_ for f_ in info.subs if info.kind[f_] == "fock" and f_.startswith("e") and info.spec["envs"][int(f_[1:].split(".")[0])].get("fock", 0) >= k_]
+                ts = [draw(st.sampled_from(over))] if over else slots[i]["default_targets"]
+                forced_over = bool(over)
             elif draw(st.booleans()):
                 ts = slots[i]["default_targets"]
             else:
@@ -123,7 +134,13 @@ def _case(draw):
                 entry = draw(st.sampled_from(es))
             # now and then a user-sized operation is sent to a target of another size on purpose: the library
             # refuses (or resizes); either way the operation object must behave like a fresh one afterwards
-            events.append(dict(ev="apply", slot=i, entry=entry, targets=list(ts), force=draw(st.integers(0, 4)) == 0))
+            was_over = bool(locals().get("forced_over", False))
+            events.append(dict(ev="apply", slot=i, entry=entry, targets=list(ts), force=(draw(st.integers(0, 4)) == 0) or was_over))
+            forced_over = False
+            if was_over:
+                # ... and afterwards to the mode it was built for
+                dt = slots[i]["default_targets"]
+                events.append(dict(ev="apply", slot=i, entry=draw(st.sampled_from(["state"] + (["env"] if info.env_of(dt[0]) else []) + info.ces_of(dt[0]))), targets=list(dt), force=False))
     return dict(spec=spec, layout=layout, contraction=draw(st.booleans()), slots=slots, events=events)
 
 
